@@ -155,6 +155,34 @@ func UniverseKVOrphan() *Universe {
 	return b.Done()
 }
 
+// UniverseKVDelDel: a key deleted while it is already deleted, on a branch
+// that loses (the second delete is rolled back), and a writer that sits at
+// different heights on the two branches.
+//
+//	g - m1 - m2 - m3 - m4      m1: kvA (A: put k1 x)  m2: kvD1 (A: del k1)  m3: kvD2 (A: del k1 again)  m4: kvT (B: put k2 t)
+//	          \-- n3 - n4 - n5  n3: kvT              n4: kvP (A: put k1 y)  n5: award only
+func UniverseKVDelDel() *Universe {
+	b := NewUniverse("U-kv-deldel", DefaultConfig(), RegisterVKV)
+	root := b.Root()
+	change := func(tx *pb.Transaction) In { return In{Tx: tx, Offset: len(tx.TxOutputs) - 1} }
+	b.At("g")
+	kvA := b.KV("kvA", "A", "put k1 x", []In{{Tx: root, Offset: 0}})
+	b.Block("m1", "M")
+	kvD1 := b.KV("kvD1", "A", "del k1", []In{change(kvA)})
+	b.Block("m2", "M")
+	b.KV("kvD2", "A", "del k1", []In{change(kvD1)})
+	b.Block("m3", "M")
+	b.KV("kvT", "B", "put k2 t", []In{{Tx: root, Offset: 1}})
+	b.Block("m4", "M")
+	b.At("m2")
+	b.Resubmit("kvT")
+	b.Block("n3", "P")
+	b.KV("kvP", "A", "put k1 y", []In{change(kvD1)})
+	b.Block("n4", "P")
+	b.Block("n5", "P")
+	return b.Done()
+}
+
 // UniverseAmt: zero-value output, frozen outputs (future height and -1),
 // amounts beyond 64 bit, leading-zero amount bytes in an output, multi-input
 // multi-output, fee outputs.
